@@ -1,4 +1,4 @@
-\* as is: two Peers(ctx) callers against one worker and Discard
+\* variant: Peers() checks and parks atomically: nobody is stranded
 SPECIFICATION Spec
 CONSTANTS
   Peers = {"p1", "p2"}
@@ -14,11 +14,10 @@ CONSTANTS
   MaxCalls = 2
   MaxApi = 0
   WithGC = TRUE
-  AtomicPeers = FALSE
+  AtomicPeers = TRUE
   SignedWant = FALSE
   Serialized = FALSE
   DirectAPI = FALSE
 CHECK_DEADLOCK FALSE
 VIEW state
-INVARIANTS TypeOK SizeBound ReportedExactlyOnce ViewBookkeeping PeersResult
-PROPERTIES ContactLeavesBackoff GCInvisible
+INVARIANTS TypeOK NoStrandedWaiter PeersResult
